@@ -84,6 +84,8 @@ def run(ctx):
     r5 = ctx.rule("C04.R5", "SIB: the four backend classes expose the same public method set with the same parameter names and (numerically) equal defaults", "SIB", floor=35)
     r6 = ctx.rule("C04.R6", "PREC: in astensor/ones/zeros the library constructor that first sees python numbers receives the dtype looked up in self.dtypemap (dtype= or dtype_hint=)", "PREC", floor=12)
 
+    r7 = ctx.rule("C04.R7", "MODE: nothing in src/pyhf switches the numeric mode of a tensor library in a way that changes results process-wide (denormal flushing, TF32 / reduced matmul precision, fast-math): such a switch silently turns Poisson terms of denormal rates into -inf and far-tail probabilities into 0, also for backends selected later", "MODE", floor=2)
+    _numeric_mode(ctx, r7, repo)
     n, lam, x, mu, sigma = (Poly.atom(s) for s in ("n", "lam", "x", "mu", "sigma"))
     ref_pois = fn("xlogy", n, lam) - lam - fn("gammaln", n + 1)
     ref_norm = -fn("log", sigma * fn("sqrt", 2 * Poly.atom("PI"))) - ((x - mu) / (fn("sqrt", Poly.const(2)) * sigma)) ** 2
@@ -307,3 +309,48 @@ def _prec(ctx, rid, m, inp):
     else:
         ctx.violated(rid, m, c, f"`{A.short(c, 60)}` builds the tensor from python numbers without the target dtype: the library default precision applies first (python floats are binary64, tf defaults to float32) and a later cast cannot restore the lost digits",
                      expected="dtype=/dtype_hint=<self.dtypemap[...]>", found="no dtype at construction", node=c)
+
+
+MODE_SWITCH_CALLS = {"set_flush_denormal", "set_float32_matmul_precision", "enable_mixed_precision_graph_rewrite", "set_fast_math", "enable_tensor_float_32_execution"}
+MODE_SWITCH_ATTRS = {"allow_tf32", "allow_fp16_reduced_precision_reduction", "allow_bf16_reduced_precision_reduction"}
+MODE_SWITCH_CONFIG_KEYS = {"jax_default_matmul_precision", "jax_numpy_dtype_promotion", "jax_disable_jit_denormals"}
+
+
+def _mode_switches(tree):
+    out = []
+    for nd in ast.walk(tree):
+        if isinstance(nd, ast.Call):
+            nm = A.call_attr(nd)
+            if nm in MODE_SWITCH_CALLS and not (nd.args and A.const_value(nd.args[0]) is False):
+                out.append(nd)
+            elif nm == "update" and nd.args and isinstance(A.const_value(nd.args[0]), str) and A.const_value(nd.args[0]) in MODE_SWITCH_CONFIG_KEYS:
+                out.append(nd)
+            elif nm in ("environ.setdefault", "setdefault", "putenv") and nd.args and isinstance(A.const_value(nd.args[0]), str) and "XLA_FLAGS" in A.const_value(nd.args[0]):
+                out.append(nd)
+        elif isinstance(nd, ast.Assign):
+            for t in nd.targets:
+                if isinstance(t, ast.Attribute) and t.attr in MODE_SWITCH_ATTRS and A.const_value(nd.value) is not False:
+                    out.append(nd)
+                if isinstance(t, ast.Subscript) and A.const_value(t.slice) == "XLA_FLAGS":
+                    out.append(nd)
+    return out
+
+
+def _numeric_mode(ctx, rid, repo):
+    # positive control: the matcher must recognise the constructs it is meant to find
+    control = ast.parse("import torch, jax\ntorch.set_flush_denormal(True)\ntorch.backends.cuda.matmul.allow_tf32 = True\njax.config.update('jax_default_matmul_precision', 'bfloat16')\n")
+    if len(_mode_switches(control)) == 3:
+        ctx.holds(rid, "matcher self-test", "3 of 3 embedded mode switches recognised")
+    else:
+        ctx.error("C04.R7: the mode-switch matcher does not recognise its own positive control")
+    hits = 0
+    nmod = 0
+    for m in repo.modules.values():
+        if not m.relpath.startswith("src/pyhf/"):
+            continue
+        nmod += 1
+        for nd in _mode_switches(m.tree):
+            hits += 1
+            ctx.violated(rid, (m.relpath, "<module>"), nd, f"`{A.short(nd, 70)}` switches a process-wide numeric mode of the tensor library: values that were representable (denormal rates, tail probabilities) are flushed or rounded differently from then on, for every backend used later in the process", expected="no numeric mode switch in the package", node=nd)
+    if not hits:
+        ctx.holds(rid, f"src/pyhf ({nmod} modules)", "no denormal-flush / reduced-precision / fast-math switch")
